@@ -55,7 +55,7 @@ def gen_case(streams, tier):
     for _ in range(f.randint(5, 15 if tier == 'thorough' else 10)):
         ops.append({'op': f.choice(OPS), 'target': f.randrange(64), 'wb': f.randrange(64),
                     'a': f.randrange(1 << 16), 'b': f.randrange(1 << 16)})
-    return {'prop': ID, 'designs': designs, 'ops': ops,
+    return {'prop': ID, 'designs': designs, 'ops': ops, 'narrow': f.randrange(4) if f.random() < 0.3 else 0,
             'sched': world.gen_sched(streams, with_iter=False)}
 
 
@@ -100,6 +100,14 @@ def run(case, res):
         pool.append(Entry(b.block, d['cycles'], 'design%d' % di))
     unrelated = pyrtl.Block()
     fresh = [0]
+    struct_pool = []        # results kept for their structure only (unmerged I/O): (block, fp, label)
+    for di, e in enumerate(pool):
+        if (case.get('narrow', 0) >> di) & 1:
+            # the owner of this design narrowed its legal_ops to the primitives it uses
+            e.block.legal_ops = set(n.op for n in e.block.logic)
+            e.narrowed = True
+            e.snapshot()
+            res.probes.hit('legal_ops_narrowed')
 
     def newname(p):
         fresh[0] += 1
@@ -108,6 +116,8 @@ def run(case, res):
     for oi, op in enumerate(case['ops']):
         kind = op['op']
         tgt = pool[op['target'] % len(pool)]
+        if kind.startswith('edit') and getattr(tgt, 'narrowed', False):
+            continue        # the owner forbade the primitives an edit would add
         wbc = op['wb'] % (len(pool) + 1)
         wb = unrelated if wbc == len(pool) else pool[wbc].block
         pyrtl.set_working_block(wb, no_sanity_check=True)
@@ -199,6 +209,10 @@ def run(case, res):
                                       'blocks': [owner[k].label, e.label]}, tags)
                 owner[k] = e
         # (1) fingerprints
+        for blk_s, fp_s, lab_s in struct_pool:
+            if blk_s is not result and transforms.fingerprint(blk_s) != fp_s:
+                return Violation('fingerprint', 'block_changed',
+                                 {'op': kind, 'index': oi, 'block': lab_s, 'is_source': False}, tags)
         for e in pool:
             if e is edit_target:
                 continue
@@ -246,6 +260,7 @@ def run(case, res):
                 # unmerged I/O: the result has per-bit ports, so the source's tape does not drive
                 # it (C03 owns that translation); it was checked structurally, it is not pooled
                 res.probes.hit('unmerged_result_not_pooled')
+                struct_pool.append((result, transforms.fingerprint(result), 'synth_unmerged#%d' % oi))
                 continue
             ent = Entry(result, tgt.tape, '%s(%s)#%d' % (kind, tgt.label, oi))
             compare = True
